@@ -1,4 +1,5 @@
 import ErdosVerif.Lemmas.SimQueueRun
+import ErdosVerif.Lemmas.SimEditPending
 /-!
 Event order at simulator level, part 3: the scheduler-restart event, the handlers.
 -/
@@ -94,5 +95,11 @@ theorem handleSchedulerFinish_q (ev : SEvent) : KeepsQ (handleSchedulerFinish ev
     | qev_close0
     | (pick_hyp h => exact h.2)
     | (pick_hyp hl => pick_hyp h => exact wf_of_sorted hl h)
+    -- the pending list after the in-place edit of a cached placement event (`editPending`)
+    | (refine ⟨?_, fun e he => ?_⟩
+       · q_close0
+       · rcases List.mem_append.mp he with he | he
+         · pick_hyp h => exact editPending_forall (P := SEvent.WF) (fun _ _ _ h' => h') _ _ _ h.2 e he
+         · pick_hyp h => exact h.2 e he)
 
 end ErdosVerif.Model.Sim
